@@ -13,6 +13,13 @@ DecodeReason(e) ==
          "field_" \o (IF bad = <<>> THEN "record_shape" ELSE bad[1])
   ELSE IF e.out # e.want.Payload THEN "returned_bytes"
   ELSE IF e.head # e.want.B THEN "partition_head"
+  \* also on a VP9Packet that has decoded descriptors with every optional part before
+  ELSE IF e.used.res # "ok" THEN "wellformed_descriptor_rejected_by_used_packet"
+  ELSE IF e.used.f # e.want THEN
+         LET names == <<"I", "P", "L", "F", "B", "E", "V", "Z", "PictureID", "TID", "U", "SID", "D", "PDiff", "TL0PICIDX", "NS", "Y", "G", "NG", "Width", "Height", "PGTID", "PGU", "PGPDiff", "Payload">>
+             bad == SelectSeq(names, LAMBDA n : e.used.f[n] # e.want[n]) IN
+         "used_packet_field_" \o (IF bad = <<>> THEN "record_shape" ELSE bad[1])
+  ELSE IF e.used.out # e.want.Payload THEN "used_packet_returned_bytes"
   ELSE ""
 HeaderReason(e) ==
   IF e.res = "panic" \/ e.trunc_panics # 0 THEN "header_panic"
